@@ -2,7 +2,8 @@
    the five IBinaryReader backends, BinaryReader, BinaryWriter, BitmapReader, BitmapWriter.
    Definitions only.  A Go panic is [None].  Transcribed statement by statement from the code
    as it is after the fix: commits (Seek from the end, mmap exact fit, BitmapReader last bit,
-   ReadInt24 sign extension), quirks included. *)
+   ReadInt24 sign extension, 8-bit reads test len(data) < 1, EOF together with the last bytes is not
+   an error for a satisfied request, mmap n == 0), quirks included. *)
 From Verif Require Import Common.Base.
 
 (* ---- error kinds (projection of Go's error values) -------------------------------------- *)
@@ -18,7 +19,7 @@ Definition E_WHENCE : Z := 8.    (* Seek: "invalid whence" *)
 Definition E_FUEL : Z := 99.     (* model only: loop fuel exhausted (proved unreachable) *)
 
 (* ---- what IBinaryReader.Bytes returns --------------------------------------------------- *)
-(* br_nil: the returned slice is nil (ReadByte/ReadUint8 test data == nil, not len(data)) *)
+(* br_nil: the returned slice is nil (observable through ReadBytes) *)
 Record bres := mkBR { br_data : list Z; br_nil : bool; br_err : Z }.
 Definition nil_res (e : Z) : bres := mkBR [] true e.
 
@@ -56,7 +57,7 @@ Definition mmap_bytes (s : mstate) (bnil : bool) (n off : Z) : option (mstate * 
   | None => Some (s, nil_res E_CLOSED)
   | Some d =>
       if (off <? 0) || (n <? 0) then Some (s, nil_res E_RANGE)
-      (* no "n == 0" branch here, unlike binaryReaderBytes *)
+      else if n =? 0 then Some (s, nil_res E_NIL)
       else if len d <=? off then Some (s, nil_res E_EOF)
       else
         let short := len d - off <? n in
@@ -88,8 +89,9 @@ Definition src_read (rem sched : list Z) (ewl : bool) (fe : Z) (k : Z) : rd :=
       mkRd (firstz m rem) rem' (tl sched) (if (len rem' =? 0) && ewl then fe else E_NIL)
   end.
 
-(* for i := 0; i < int(n); { m, err := r.Read(b[i:]); i += m; if err != nil {return b[:i], err}
-   else if m == 0 {return b[:i], "could not read all bytes"} }; return b, nil
+(* for i := 0; i < int(n); { m, err := r.Read(b[i:]); i += m;
+     if err == io.EOF && i == int(n) {break} else if err != nil {return b[:i], err}
+     else if m == 0 {return b[:i], "could not read all bytes"} }; return b, nil
    need = n - i, acc = b[:i].  At most n+1 iterations: fuel n+1 is never exhausted. *)
 Fixpoint read_loop (fuel : nat) (rem sched : list Z) (ewl : bool) (fe : Z) (need : Z) (acc : list Z) : rd :=
   if need <=? 0 then mkRd acc rem sched E_NIL else
@@ -98,7 +100,8 @@ Fixpoint read_loop (fuel : nat) (rem sched : list Z) (ewl : bool) (fe : Z) (need
   | S f =>
       let r := src_read rem sched ewl fe need in
       let acc' := acc ++ rd_out r in
-      if negb (rd_err r =? 0) then mkRd acc' (rd_rem r) (rd_sched r) (rd_err r)
+      if (rd_err r =? E_EOF) && (need - len (rd_out r) =? 0) then mkRd acc' (rd_rem r) (rd_sched r) E_NIL
+      else if negb (rd_err r =? 0) then mkRd acc' (rd_rem r) (rd_sched r) (rd_err r)
       else if len (rd_out r) =? 0 then mkRd acc' (rd_rem r) (rd_sched r) E_SHORT
       else read_loop f (rd_rem r) (rd_sched r) ewl fe (need - len (rd_out r)) acc'
   end.
@@ -167,7 +170,8 @@ Definition readerat_bytes (s : astate) (bnil : bool) (n off : Z) : option (astat
   else
     let '(out, e, sch) := src_readat s n off in
     let s' := mkA (a_data s) sch (a_ewl s) (a_fe s) (a_size s) in
-    if negb (e =? 0) then Some (s', mkBR out false e)
+    (* err != nil && (err != io.EOF || int64(m) != n) *)
+    if negb (e =? 0) && (negb (e =? E_EOF) || negb (len out =? n)) then Some (s', mkBR out false e)
     else if negb (len out =? n) then Some (s', mkBR out false E_SHORT)
     else Some (s', mkBR out false E_NIL).
 
@@ -248,10 +252,10 @@ Definition read_fixed (st : sys S) (w : Z) (dec : bool -> list Z -> Z) : option 
   x <- read_bytes st w ;;
   Some (fst x, VInt (dec (rlittle (cur st)) (br_data (snd x)))).
 
-(* ReadUint8: data := r.ReadBytes(1); if data == nil { return 0 }; return data[0] *)
+(* ReadUint8: data := r.ReadBytes(1); if len(data) < 1 { return 0 }; return data[0] *)
 Definition read_u8 (st : sys S) : option (sys S * Z) :=
   x <- read_bytes st 1 ;;
-  if br_nil (snd x) then Some (fst x, 0)
+  if len (br_data (snd x)) <? 1 then Some (fst x, 0)
   else c <- peekz (br_data (snd x)) 0 ;; Some (fst x, c).
 
 (* Seek.  Go computes in int64; Z is exact here: Len() >= 0 for every constructor and 0 <= r.pos <= Len()
@@ -289,7 +293,7 @@ Definition step (st : sys S) (o : op) : option (sys S * obs) :=
   | OReadString n => x <- read_bytes st n ;; Some (fst x, VData false (br_data (snd x)))
   | OReadByte =>
       x <- read_bytes st 1 ;;
-      if br_nil (snd x) then Some (fst x, VIntErr 0 (rerr (cur (fst x))))
+      if len (br_data (snd x)) <? 1 then Some (fst x, VIntErr 0 (rerr (cur (fst x))))
       else b <- peekz (br_data (snd x)) 0 ;; Some (fst x, VIntErr b E_NIL)
   | OU8 => x <- read_u8 st ;; Some (fst x, VInt (snd x))
   | OI8 => x <- read_u8 st ;; Some (fst x, VInt (to_signed 8 (snd x)))
